@@ -250,10 +250,13 @@ func (cpu *CPU) processInterrupt() bool {
 	case 2:
 		// Interrupt with IM 2
 		if len(cpu.Interrupt.Data) > 0 {
+			// Take the vector first: pushing PC calls Memory.Set, and a
+			// device behind it may replace cpu.Interrupt.
+			// The LSB of interruption vector is ignored in IM 2
+			vector := cpu.Interrupt.Data[0] & 0xfe
 			cpu.SP -= 2
 			cpu.writeU16(cpu.SP, cpu.PC)
-			// The LSB of interruption vector is ignored in IM 2
-			cpu.PC = cpu.readU16(toU16(cpu.Interrupt.Data[0]&0xfe, cpu.IR.Hi))
+			cpu.PC = cpu.readU16(toU16(vector, cpu.IR.Hi))
 			cpu.IFF1 = false
 			cpu.IFF2 = false
 		}
